@@ -425,6 +425,10 @@ pub struct Plan {
     /// the handler calls ResponseUnit::finish() after every datum (and returns its error, if any)
     #[serde(default, skip_serializing_if = "is_false")]
     pub finish_each: bool,
+    /// with finish_each: the handler looks at the result of those intermediate finish() calls
+    /// but carries on regardless; only the last finish() is returned
+    #[serde(default, skip_serializing_if = "is_false")]
+    pub finish_ignore: bool,
 }
 
 /// Lexical fault in the parameter part of a unit: elements with index < p can be delivered
@@ -531,6 +535,9 @@ pub enum Step {
     Tst { code: i16 },
     /// direct operation on the error queue (C12 world)
     Q(QOp),
+    /// the caller hands the next message a response buffer that already holds these bytes (a
+    /// buffer reused without clearing, responses collected in one buffer, an echo)
+    Prefill(B),
 }
 
 #[derive(Clone, Debug, PartialEq, Eq, Serialize, Deserialize)]
